@@ -1601,7 +1601,7 @@ def hpt_post(c, p):
     return "true" if ok else "false"
 
 
-Q(name="e2_handle_packet_tail", props=["C08"], func=r"connection/mod\.rs:\d+:1: \d+:16>::handle_packet$",
+Q(name="e2_handle_packet_tail", props=["C08", "C09"], func=r"connection/mod\.rs:\d+:1: \d+:16>::handle_packet$",
   src="connection/mod.rs", within=r"^    fn handle_packet\(", start_line=[r"if !was_closed && self\.state\.is_closed\(\)", r"(?#before)^            self\.close_common\(\);"],
   inline=[r"State::is_closed$", r"State::is_drained$"], allowed_panics=r".",
   functions=["Connection::handle_packet (slice: from `if !was_closed && self.state.is_closed()` to the end)"], pre=lambda c: "true", post=hpt_post,
@@ -3371,3 +3371,27 @@ Q(name="e2_streams_open_limit", props=["C05"], func=r"streams/mod\.rs:\d+:1: \d+
   functions=["Streams::open"], pre=lambda c: ule(c.inp("_2#discr", I64), bv(1)), post=so_post,
   bounds="every stream-count state, both directions: a stream id is handed out only while the number of streams opened so far in that direction is strictly below the peer's limit - in particular never with a limit of 0",
   replay=("streams_open_limit_native", lambda m: [dict(limit=0), dict(limit=1), dict(limit=3)]))
+
+
+# ------------------------------------------------------------------ C08: the application's close code and reason travel only in 1-RTT packets (slice)
+def cr_post(c, p):
+    st = p.p.state
+    if p.p.outcome != "stop":
+        return "true"
+    enc = p.called(r"frame::Close::encode(::<[^>]*>)?>?$")
+    if not enc:
+        return "true"
+    sp = c.inp(c.fn.debug["space_id"][0] + "#discr", I64)
+    tl = p.called(r"Close::is_transport_layer$")
+    transport = c.ex.read_key(st, tl[0][2], BOOL).t if tl else "false"
+    # the stored reason itself is put on the wire only in the Data space, or when it is a transport-level reason
+    return or_(eq(sp, bv(c.ex.enums["SpaceId"].index("Data"))), transport)
+
+
+Q(name="e2_poll_transmit_close_reason_slice", props=["C08"], func=r"connection/mod\.rs:\d+:1: \d+:16>::poll_transmit$",
+  src="connection/mod.rs", within=r"^    pub fn poll_transmit\(", start_line=[r"if !self\.spaces\[space_id\]\.pending_acks\.ranges\(\)\.is_empty\(\) \{", r"(?#after)// have gotten any other ACK for the data earlier on\."],
+  end_line=[r"if space_id == self\.highest_space \{"],
+  allowed_panics=r".", check_stop=True, inline=[r"State::is_closed$"], ignore_untranslatable=r"fmt::rt::Argument",
+  functions=["Connection::poll_transmit (slice: the CONNECTION_CLOSE branch)", "<SpaceId as PartialEq>::eq (as equality of discriminants)"], pre=lambda c: ule(c.inp(c.fn.debug["space_id"][0] + "#discr", I64), bv(2)), post=cr_post,
+  bounds="the close branch from an ARBITRARY state, every packet-number space: the close reason stored in the connection state (which may be the APPLICATION's code and text) is encoded only into a 1-RTT packet, or when it is a transport-level reason; in Initial and Handshake packets an application close goes out as the generic APPLICATION_ERROR without text (RFC 9000 10.2.3), so nothing of the application leaks before the handshake is confirmed; promoted `&SpaceId::X` constants are resolved from the MIR dump",
+  replay=("conn_close_reason_early_native", lambda m: [dict(x=0)]))
